@@ -1,7 +1,9 @@
 """C07 — assumed accelerator state is always a subset of the real state.
 
-(H) hand model coq/Model/AccInfer.v of snaxc/inference/trace_acc_state.py (infer_state_of /
-state_intersection / loop head+result rules) tied by L1: the model's table == the real
+(H) hand models coq/Model/AccInfer.v of snaxc/inference/trace_acc_state.py (infer_state_of /
+state_intersection / loop head+result rules) and coq/Model/AccWeave.v of _weave_states_in_region /
+has_accfg_effects / calc_if_state_delta / find_existing_block_arg, tied by L1: weave(before) ==
+real accfg-trace-states output modulo renaming of SSA values; the model's table == the real
 infer_state_of dictionaries (exact, incl. dict order) on every state value of every generated
 program after the real accfg-trace-states, AND the decidable certificate wf_prog (the
 hypothesis of theorem C07_certified_inference_sound) holds for the real table on the real output.
@@ -19,7 +21,8 @@ import acc_common as AC
 import accir
 
 PROPERTY = "C07"
-MODEL_TARGETS = ["Model/AccInfer.vo"]
+MODEL_TARGETS = ["Model/AccInfer.vo", "Model/AccWeave.vo"]
+HEADER_W = "From Snax Require Import Base.Prelude Model.AccIR Model.AccSem Model.AccInfer Model.AccDedup Model.AccWeave.\n"
 RULE = ("functions in lowering form: 1-2 accelerators x 1-3 fields, full-field setup+launch+await triples with "
         "values from arguments/constants/loop-derived arithmetic, scf.for (runtime lb/ub/step) and scf.if "
         "(runtime or loop-derived condition, with/without else) nested to depth 3, func.call with/without "
@@ -36,7 +39,7 @@ TRUSTED_BASE = [
 ASSUMPTIONS = [
     "the theorem is about tables that pass the decidable certificate wf_prog; that the table of the real infer_state_of "
     "passes it on the real accfg-trace-states output is checked per generated program (L1), not proved for all programs",
-    "_weave_states_in_region is not modelled as a Gallina function: its output is validated per run (wf_prog, trace equality with the input)",
+    "the model weave (coq/Model/AccWeave.v) of _weave_states_in_region is tied to the code by exact comparison modulo renaming (L1); that its output always passes wf_prog / has the input's trace is validated per run, not proved",
     "ops with regions other than scf.for/scf.if, and accfg.effects on scf ops, are outside the abstract IR (converter rejects them)",
     "integers are mathematical (no wrap-around); opaque calls may rewrite every register of every accelerator (oracle)",
 ]
@@ -82,24 +85,27 @@ def correspondence(ctx):
             if st.error[0] == "crash":
                 dis.append({"name": "L1:pass-crash", "text": text, "error": st.error[1]})
             continue
-        cases.append(f"({accir.to_coq(st.traced)}, {AC.tbl_coq(st.table)})")
+        cases.append(f"({accir.to_coq(st.traced)}, {AC.tbl_coq(st.table)}, {accir.to_coq(st.before)})")
         meta.append(text)
     shards = AC.shard(list(zip(cases, meta)), 8)
     texts = []
     for sh in shards:
-        texts.append(AC.HEADER + f"Definition cases : list (prog * tbl) := {accir._l(c for c, _ in sh)}.\n"
-                     "Eval vm_compute in failing (fun c => tbl_eqb_on (map fst (snd c)) (ainfer (fst c)) (snd c)) cases.\n"
-                     "Eval vm_compute in failing (fun c => wf_prog (tfun (snd c)) (fst c)) cases.\n")
+        texts.append(HEADER_W + f"Definition cases : list (prog * tbl * prog) := {accir._l(c for c, _ in sh)}.\n"
+                     "Eval vm_compute in failing (fun c => match c with (p, t, b) => tbl_eqb_on (map fst t) (ainfer p) t end) cases.\n"
+                     "Eval vm_compute in failing (fun c => match c with (p, t, b) => wf_prog (tfun t) p end) cases.\n"
+                     "Eval vm_compute in failing (fun c => match c with (p, t, b) => weave_ok b p end) cases.\n")
     res = vlib.coq_eval_many("c07l1_", texts, timeout=900)
     for sh, (ok, out) in zip(shards, res):
         lists = vlib.parse_all_eval_lists(out)
-        if not ok or len(lists) != 2:
+        if not ok or len(lists) != 3:
             dis.append({"name": "L1:cases-file", "detail": out[-1500:]})
             continue
         for idx in lists[0]:
             dis.append({"name": "L1:infer_state_of-vs-ainfer", "text": sh[idx][1]})
         for idx in lists[1]:
             dis.append({"name": "L1:real-table-not-certified(wf_prog)", "text": sh[idx][1]})
+        for idx in lists[2]:
+            dis.append({"name": "L1:_weave_states_in_region-vs-weave", "text": sh[idx][1]})
     return dis
 
 
